@@ -54,6 +54,7 @@ def scenarios(tier):
     out.append(dict(name='keepalive-busy', kind='enum', runner='run_keepalive_busy', params=dict(), weight=10))
     out.append(dict(name='adaptive-second-init', kind='enum', runner='run_adaptive_second_init', params=dict(), weight=30))
     out.append(dict(name='reported-limits', kind='enum', runner='run_reported_limits', params=dict(), weight=10))
+    out.append(dict(name='slow-negotiation', kind='enum', runner='run_slow_negotiation', params=dict(), weight=10))
     return out
 
 
@@ -235,6 +236,62 @@ def run_keepalive_busy(params, known):
                         v['case'] = case
                         violations.append(v)
     return dict(name='keepalive-busy', evaluations=count, violations=violations, known=[], samples=[])
+
+
+def run_slow_negotiation(params, known):
+    '''The peer is slow: its contact header, or its SESS_INIT, arrives only after several of the
+    endpoint's configured keepalive / idle intervals.  Until the session is negotiated nothing but
+    the contact header and one SESS_INIT may be written (no KEEPALIVE, no SESS_TERM timers run on
+    un-negotiated values), and the session must still come up.'''
+    prop = params.get('prop', PROP)
+    violations = []
+    count = 0
+    for role in ('passive', 'active'):
+        for (own_ka, own_idle) in ((0, 0), (2, 0), (5, 0), (2, 9)):
+            for stall in ('before-contact-header', 'before-sess-init'):
+                for wait_s in (1, 11, 45):
+                    count += 1
+                    case = dict(role=role, keepalive=own_ka, idle=own_idle, stall=stall, wait_s=wait_s)
+                    w = PeerWorld(dict(role=role, keepalive=own_ka, idle=own_idle, seg_mru=64, tx_init=64))
+
+                    def let_time_pass(seconds):
+                        end = w.clock.now_us + int(seconds * 1e6)
+                        guard = 0
+                        while guard < 400:
+                            guard += 1
+                            dl = w.next_deadline()
+                            if dl is None or dl > end:
+                                break
+                            w.clock.now_us = max(w.clock.now_us, dl)
+                            w.quiesce()
+                        w.clock.now_us = end
+                        w.quiesce()
+                    if stall == 'before-contact-header':
+                        let_time_pass(wait_s)
+                        w.peer_write(T.enc_contact(0))
+                        w.quiesce()
+                    else:
+                        w.peer_write(T.enc_contact(0))
+                        w.quiesce()
+                        let_time_pass(wait_s)
+                    w.peer_write(T.enc_sess_init(7, 64, 1000, b'dtn://p/'))
+                    w.quiesce()
+                    (msgs, _rest) = T.parse_all(w.out_octets, with_contact=True)
+                    kinds = [m['kind'] for m in msgs]
+                    found = None
+                    if w.escaped:
+                        found = 'escaped %s: %s' % (w.escaped[-1][0], w.escaped[-1][2])
+                    elif own_idle == 0 and kinds[:2] != ['CONTACT', 'SESS_INIT']:
+                        found = 'the endpoint wrote %r: the octets written are a contact header, then a SESS_INIT, then only messages' % (kinds,)
+                    elif own_idle == 0 and ('session_state_changed', 'established') not in w.signals:
+                        found = 'session not established after the late peer caught up (wrote %r)' % (kinds,)
+                    elif own_idle and kinds and (kinds[0] != 'CONTACT' or any(k not in ('CONTACT', 'SESS_INIT', 'SESS_TERM') for k in kinds[:2])):
+                        found = 'the endpoint wrote %r before the session was negotiated' % (kinds,)
+                    if found and len(violations) < 4:
+                        v = Violation(prop, 'wire', 'message-before-sess-init', dict(), '%r: %s' % (case, found)).as_dict()
+                        v['case'] = case
+                        violations.append(v)
+    return dict(name=params.get('name', 'slow-negotiation'), evaluations=count, violations=violations, known=[], samples=[])
 
 
 def run_reported_limits(params, known):
